@@ -1,6 +1,7 @@
 package main
 
 import (
+	"sort"
 	"fmt"
 	"go/types"
 	"strings"
@@ -52,6 +53,8 @@ type Enc struct {
 	epochCtr  int
 	strConsts map[string]int
 	typeIDs   map[string]int
+	typeObjs  map[int]types.Type       // concrete types by id
+	implIface map[string]types.Type    // impl_<I> predicate -> interface type
 	usedSpecs map[string]bool
 	db        *ContractDB
 	prog      *ssa.Program
@@ -133,7 +136,56 @@ func (e *Enc) typeID(t types.Type) Term {
 		id = len(e.typeIDs) + 1
 		e.typeIDs[k] = id
 	}
+	if e.typeObjs == nil {
+		e.typeObjs = map[int]types.Type{}
+	}
+	e.typeObjs[id] = t
 	return I(int64(id))
+}
+
+// implPred declares the "dynamic type implements interface I" predicate.
+func (e *Enc) implPred(t types.Type) string {
+	fn := "impl_" + typeKey(t)
+	e.declareFun(fn, []string{"Int"}, "Bool")
+	if e.implIface == nil {
+		e.implIface = map[string]types.Type{}
+	}
+	e.implIface[fn] = t
+	return fn
+}
+
+// implFacts: for every concrete type that occurs in the function and every interface tested,
+// whether the type implements the interface is a fact of the type checker.
+func (e *Enc) implFacts() []string {
+	var out []string
+	var fns []string
+	for fn := range e.implIface {
+		fns = append(fns, fn)
+	}
+	sort.Strings(fns)
+	var ids []int
+	for id := range e.typeObjs {
+		ids = append(ids, id)
+	}
+	sort.Ints(ids)
+	for _, fn := range fns {
+		it, ok := e.implIface[fn].Underlying().(*types.Interface)
+		if !ok {
+			continue
+		}
+		for _, id := range ids {
+			t := e.typeObjs[id]
+			if _, isIface := t.Underlying().(*types.Interface); isIface {
+				continue
+			}
+			if types.Implements(t, it) {
+				out = append(out, fmt.Sprintf("(%s %d)", fn, id))
+			} else {
+				out = append(out, fmt.Sprintf("(not (%s %d))", fn, id))
+			}
+		}
+	}
+	return out
 }
 
 // strConst returns the (id,off,len) of a string constant and records its bytes as axioms.
